@@ -25,16 +25,25 @@
          and every object of the history holds well-formed nonzero generators of word size with
          exact exponents;
        - one-call versions without histories: `minimizeBasis_groebner`, `reduceBasis_groebner`.
-   * NOT proved (remains as in `flags_sound_full`): the clause for `isReduced = 1` (`decideReduced`
-     of the current generators is not `some false`).  It needs, beyond the above: that a remainder
-     modulo the others is a fixed point of that division, and that later replacements in the loop
-     do not disturb earlier ones (each `g_i` is in normal form w.r.t. the FINAL list because the
-     leading exponents never change — `remByOthers_minimal` — but the statement about `equal` of
-     the recomputed remainders also needs the division to be deterministic on normal forms).
+       - `flags_sound_reduced` : the third clause — a positive reducedness flag is never
+         contradicted by `decideReduced` on the CURRENT generators (the answer is `some true`, or
+         `none` when a generator has more terms than the division has fuel), and it means: no
+         exponent of a generator is divisible by the leading exponent of another generator
+         (`ReducedSem`) and every generator has LEADING COEFFICIENT ONE (`Monic`; the model
+         normalises in `MinimizeBasis()`/`IsMinimal()` via `Normalize`, `ReduceBasis()` itself only
+         keeps leading exponents and coefficients — since it always minimises first or is applied
+         to a minimal-flagged object, its result is monic: `flags_sound_monic`);
+         the fixed-point property of the division it rests on is `BPoly.quoRemLoop_fixed`,
+         `quoRem_fixed`, `rem_fixed` (Proofs/Criterion4.lean);
+       - `reduced_canonical` : CANONICITY — two guarded histories from generators of the same
+         ideal that end in reduced-flagged objects end in the same set of polynomials
+         (`BPoly.reduced_unique`, `reduced_unique_perm`: uniqueness of the reduced Gröbner basis).
+     With these, all three clauses of `flags_sound_full` are proved in guarded form.
 -/
 import Algobra.Props.C12
 import Algobra.Props.C11Full
 import Algobra.Proofs.Criterion3
+import Algobra.Proofs.Criterion4
 
 namespace Algobra
 namespace C12
@@ -510,6 +519,239 @@ theorem flags_sound_groebner' (L : Lawful F K) {o : Order} (hadm : Order.Admissi
 
 end HistoryMinimal
 
+/-! ### histories: the reducedness flag, and canonicity of the reduced basis -/
+
+section HistoryReduced
+
+/-- the full meaning of the three flags along a guarded history:
+    `flags` the syntactic invariant of Props/C12.lean, `sm` goodness and minimality
+    (`SemMin`), `mon` a minimal-flagged object holds generators with LEADING COEFFICIENT ONE,
+    `red` a reduced-flagged object holds a list in which no exponent of a generator is divisible by
+    the leading exponent of another generator -/
+structure SemRed (L : Lawful F K) (o : Order) (id : Ideal α) : Prop where
+  flags : FlagsOK F o id
+  sm : SemMin L o id
+  mon : id.isMinimal = 1 → ∀ g ∈ id.gens, Monic L o g
+  red : id.isReduced = 1 → ReducedSem o id.gens
+
+variable {L : Lawful F K} {o : Order}
+
+theorem SemRed.isGroebnerQ {id id' : Ideal α} {b : Bool} (hS : SemRed L o id)
+    (h : id.isGroebnerQ F o = some (id', b)) : SemRed L o id' := by
+  obtain ⟨hg, hm, hr, -⟩ := Effects.isGroebnerQ_frame F o h
+  exact ⟨hS.flags.isGroebnerQ h, hS.sm.isGroebnerQ h,
+    fun hc => by rw [hg]; exact hS.mon (by rw [← hm]; exact hc),
+    fun hc => by rw [hg]; exact hS.red (by rw [← hr]; exact hc)⟩
+
+theorem SemRed.isMinimalQ (hadm : Order.Admissible o) {id id' : Ideal α} {b : Bool}
+    (hS : SemRed L o id) (h : id.isMinimalQ F o = some (id', b)) : SemRed L o id' := by
+  have hf := hS.flags.isMinimalQ h
+  have hsm := hS.sm.isMinimalQ hadm h
+  have hred : id'.isReduced = id.isReduced := isMinimalQ_isReduced h
+  rcases isMinimalQ_spec h with ⟨_, rfl, _⟩ | ⟨_, rfl, _⟩ | ⟨h1, -, id1, bg, hq, h3⟩
+  · exact hS
+  · exact hS
+  · have S1 := hS.isGroebnerQ hq
+    have hnr : id'.isReduced ≠ 1 := by
+      rw [hred]; intro hc; exact h1 (hS.flags.red_imp hc)
+    refine ⟨hf, hsm, fun hc => ?_, fun hc => absurd hc hnr⟩
+    rcases h3 with ⟨rfl, rfl, rfl⟩ | ⟨rfl, -, rfl⟩
+    · simp at hc
+    · intro g' hg'
+      obtain ⟨g, hg, rfl⟩ := List.mem_map.1 hg'
+      exact normalize_monic L hadm (S1.sm.good g hg)
+
+theorem SemRed.isReducedQ (hadm : Order.Admissible o) {id id' : Ideal α} {b : Bool}
+    (hS : SemRed L o id) (h : id.isReducedQ F o = some (id', b)) : SemRed L o id' := by
+  have hf := hS.flags.isReducedQ h
+  have hsm := hS.sm.isReducedQ hadm h
+  rcases isReducedQ_spec h with ⟨_, rfl, _⟩ | ⟨_, rfl, _⟩ | ⟨-, -, id1, bm, hq, h3⟩
+  · exact hS
+  · exact hS
+  · have S1 := hS.isMinimalQ hadm hq
+    rcases h3 with ⟨rfl, rfl, rfl⟩ | ⟨rfl, hb, rfl⟩
+    · exact ⟨hf, hsm, S1.mon, fun hc => by simp at hc⟩
+    · refine ⟨hf, hsm, S1.mon, fun hc => ?_⟩
+      have hbt : b = true := by
+        cases b
+        · simp at hc
+        · rfl
+      rw [hbt] at hb
+      exact reducedSem_of_decideReduced L (fun g hg => (S1.sm.good g hg).1) hb
+
+theorem SemRed.minimizeBasis (hadm : Order.Admissible o) {id id' : Ideal α}
+    {res : Except Kind Unit} (hS : SemRed L o id) (h : id.minimizeBasis F o = some (id', res)) :
+    SemRed L o id' := by
+  have hf := hS.flags.minimizeBasis h
+  have hsm := hS.sm.minimizeBasis hadm h
+  obtain ⟨id1, b, hq, hc⟩ := minimizeBasis_spec h
+  have S1 := hS.isGroebnerQ hq
+  rcases hc with ⟨rfl, rfl, -⟩ | ⟨rfl, -, rfl⟩
+  · exact S1
+  · refine ⟨hf, hsm, fun _ g hg => ?_, fun hc => ?_⟩
+    · obtain ⟨g0, hg0, rfl⟩ := List.mem_map.1 ((minimized_sublist id1.gens).subset hg)
+      exact normalize_monic L hadm (S1.sm.good g0 hg0)
+    · have hr1 : id1.isReduced = 1 := by
+        by_contra hne
+        simp only [if_neg hne] at hc
+        exact absurd hc (by decide)
+      have hrs := S1.red hr1
+      show ReducedSem o (minimized F o id1.gens)
+      rw [minimized_of_minimal L hadm S1.sm.good (hrs.minimal L hadm S1.sm.good)]
+      exact hrs.map_normalize L hadm S1.sm.good
+
+theorem SemRed.reduceBasis (hadm : Order.Admissible o) {id id' : Ideal α}
+    {res : Except Kind Unit} (hS : SemRed L o id) (hsafe : OpSafe F o .reduceBasis id)
+    (h : id.reduceBasis F o = some (id', res)) : SemRed L o id' := by
+  have hf := hS.flags.reduceBasis h
+  have hsm := hS.sm.reduceBasis hadm hsafe h
+  obtain ⟨id1, bg, hq, hc⟩ := reduceBasis_spec h
+  have S1 := hS.isGroebnerQ hq
+  have hg : id1.gens = id.gens := (Effects.isGroebnerQ_frame F o hq).1
+  have hs := hsafe.2 id1 bg hq
+  rcases hc with ⟨rfl, rfl, -⟩ | ⟨rfl, -, idm, gens, hM, hl, rfl⟩
+  · exact S1
+  · have hidm : idm.gens = (if id1.isMinimal = 1 then id.gens else minimized F o id.gens) ∧
+        (∀ g ∈ idm.gens, WF L g ∧ g ≠ [] ∧ Bounded g ∧ ∀ d ∈ keys g, Exact o d) ∧
+        MinimalLd o idm.gens ∧ (∀ g ∈ idm.gens, Monic L o g) := by
+      by_cases hmin : id1.isMinimal = 1
+      · rw [if_neg (by simpa using hmin)] at hM
+        cases hM
+        rw [if_pos hmin, hg]
+        exact ⟨rfl, by rw [← hg]; exact S1.sm.good, by rw [← hg]; exact S1.sm.min hmin,
+          by rw [← hg]; exact S1.mon hmin⟩
+      · rw [if_pos hmin, minimizeBasis_of_isGroebnerQ_true (isGroebnerQ_idem hq)] at hM
+        simp only [Option.map_some, Option.some.injEq] at hM
+        subst hM
+        have := minimized_minimal L hadm S1.sm.good
+        rw [if_neg hmin, ← hg]
+        refine ⟨rfl, this.2, this.1, fun g hgm => ?_⟩
+        obtain ⟨g0, hg0, rfl⟩ := List.mem_map.1 ((minimized_sublist id1.gens).subset hgm)
+        exact normalize_monic L hadm (S1.sm.good g0 hg0)
+    rw [← hidm.1] at hs
+    obtain ⟨-, -, c3, c4⟩ := reduceLoop_reduced L hadm hidm.2.1 hidm.2.2.1 hidm.2.2.2 hs hl
+    exact ⟨hf, hsm, fun _ => c3, fun _ => c4⟩
+
+theorem SemRed.groebnerBasis {id gb : Ideal α} (hS : SemRed L o id)
+    (hsafe : OpSafe F o .groebnerBasis id) (h : id.groebnerBasis F o = some gb) :
+    SemRed L o gb := by
+  have hf := hS.flags.groebnerBasis h
+  have hsm := hS.sm.groebnerBasis hsafe h
+  rcases groebnerBasis_spec h with ⟨-, rfl⟩ | ⟨-, G, -, rfl⟩
+  · exact hS
+  · exact ⟨hf, hsm, fun hc => by simp at hc, fun hc => by simp at hc⟩
+
+theorem SemRed.apply (hadm : Order.Admissible o) {id id' : Ideal α} (op : IdealOp)
+    (hS : SemRed L o id) (hsafe : OpSafe F o op id) (h : op.apply F o id = some id') :
+    SemRed L o id' := by
+  cases op <;> simp only [IdealOp.apply, Option.map_eq_some_iff, Prod.exists, exists_and_right,
+    exists_eq_right] at h
+  · obtain ⟨b, h⟩ := h; exact hS.isGroebnerQ h
+  · obtain ⟨b, h⟩ := h; exact hS.isMinimalQ hadm h
+  · obtain ⟨b, h⟩ := h; exact hS.isReducedQ hadm h
+  · obtain ⟨b, h⟩ := h; exact hS.minimizeBasis hadm h
+  · obtain ⟨b, h⟩ := h; exact hS.reduceBasis hadm hsafe h
+  · exact hS.groebnerBasis hsafe h
+  · cases h; exact hS
+
+theorem SemRed.run (hadm : Order.Admissible o) {id id' : Ideal α} (ops : List IdealOp)
+    (hS : SemRed L o id) (hsafe : SafeRun F o ops id) (h : IdealOp.run F o ops id = some id') :
+    SemRed L o id' := by
+  induction ops generalizing id with
+  | nil => simp only [IdealOp.run, Option.some.injEq] at h; subst h; exact hS
+  | cons op ops ih =>
+    simp only [IdealOp.run] at h
+    cases ha : op.apply F o id with
+    | none => rw [ha] at h; cases h
+    | some id1 =>
+      rw [ha] at h
+      exact ih (hS.apply hadm op hsafe.1 ha) (hsafe.2 id1 ha) h
+
+theorem SemRed.fresh (L : Lawful F K) (o : Order) {gens : List (BPoly α)}
+    (h0 : ∀ g ∈ gens, WF L g ∧ g ≠ [] ∧ Bounded g ∧ ∀ d ∈ keys g, Exact o d) :
+    SemRed L o ({ gens := gens } : Ideal α) :=
+  ⟨FlagsOK.fresh gens, ⟨h0, fun hc => by simp at hc⟩, fun hc => by simp at hc,
+    fun hc => by simp at hc⟩
+
+/-- **third clause of `flags_sound_full`, with the guard** (same guard `SafeRun` as
+    `flags_sound_minimal`): along any guarded history from `NewIdeal(gens)`, a positive reducedness
+    flag is never contradicted by the un-cached decision `decideReduced` on the CURRENT generators
+    (it answers `some true`, or `none` if a generator has more terms than `divFuel`), and it means:
+      * no exponent of a generator is divisible by the leading exponent of another generator
+        (`ReducedSem`), in particular no leading exponent divides another one (`MinimalLd`);
+      * every generator has leading coefficient one (`Monic`: the normalisation is done by
+        `MinimizeBasis()`/`IsMinimal()` through `Normalize`, and `ReduceBasis()` keeps leading
+        exponents and leading coefficients, `remByOthers_reduced`). -/
+theorem flags_sound_reduced (L : Lawful F K) {o : Order} (hadm : Order.Admissible o)
+    {gens : List (BPoly α)}
+    (h0 : ∀ g ∈ gens, WF L g ∧ g ≠ [] ∧ Bounded g ∧ ∀ d ∈ keys g, Exact o d)
+    (ops : List IdealOp) {id' : Ideal α} (hsafe : SafeRun F o ops { gens := gens })
+    (h : IdealOp.run F o ops { gens := gens } = some id') :
+    id'.isReduced = 1 →
+      decideReduced F o id'.gens ≠ some false ∧ ReducedSem o id'.gens ∧ MinimalLd o id'.gens ∧
+      ∀ g ∈ id'.gens, Monic L o g := by
+  intro hr
+  have S := (SemRed.fresh L o h0).run hadm ops hsafe h
+  have hm := S.flags.red_imp hr
+  exact ⟨decideReduced_of_reducedSem L hadm
+      (fun g hg => ⟨(S.sm.good g hg).1, (S.sm.good g hg).2.2.2⟩) (S.red hr),
+    S.red hr, S.sm.min hm, S.mon hm⟩
+
+/-- a minimal-flagged object holds generators with leading coefficient one -/
+theorem flags_sound_monic (L : Lawful F K) {o : Order} (hadm : Order.Admissible o)
+    {gens : List (BPoly α)}
+    (h0 : ∀ g ∈ gens, WF L g ∧ g ≠ [] ∧ Bounded g ∧ ∀ d ∈ keys g, Exact o d)
+    (ops : List IdealOp) {id' : Ideal α} (hsafe : SafeRun F o ops { gens := gens })
+    (h : IdealOp.run F o ops { gens := gens } = some id') :
+    id'.isMinimal = 1 → ∀ g ∈ id'.gens, Monic L o g :=
+  ((SemRed.fresh L o h0).run hadm ops hsafe h).mon
+
+/-- when every generator has fewer terms than the division has fuel the answer is `some true` -/
+theorem decideReduced_eq_some_true_of_ne_none {o : Order} {G : List (BPoly α)}
+    (h1 : decideReduced F o G ≠ some false) (h2 : decideReduced F o G ≠ none) :
+    decideReduced F o G = some true := by
+  cases hd : decideReduced F o G with
+  | none => exact absurd hd h2
+  | some b =>
+    cases b
+    · exact absurd hd h1
+    · rfl
+
+/-- **CANONICITY (C12): the reduced Gröbner basis is unique.**  Two guarded histories, for the
+    same coefficient field, the same admissible order, from `NewIdeal(gens1)` and `NewIdeal(gens2)`
+    with `⟨gens1⟩ = ⟨gens2⟩`, both ending in an object flagged reduced (e.g. by `ReduceBasis()`),
+    end in the same set of polynomials: every generator of the one occurs in the other (as a
+    polynomial, and the model's `Equal` says so), the lists of polynomials are permutations of each
+    other and have the same length. -/
+theorem reduced_canonical (L : Lawful F K) {o : Order} (hadm : Order.Admissible o)
+    {gens1 gens2 : List (BPoly α)}
+    (h1 : ∀ g ∈ gens1, WF L g ∧ g ≠ [] ∧ Bounded g ∧ ∀ d ∈ keys g, Exact o d)
+    (h2 : ∀ g ∈ gens2, WF L g ∧ g ≠ [] ∧ Bounded g ∧ ∀ d ∈ keys g, Exact o d)
+    (hspan : Ideal.span ((toMv L) '' {g | g ∈ gens1}) = Ideal.span ((toMv L) '' {g | g ∈ gens2}))
+    (ops1 ops2 : List IdealOp) {id1 id2 : Ideal α}
+    (s1 : SafeRun F o ops1 { gens := gens1 }) (s2 : SafeRun F o ops2 { gens := gens2 })
+    (r1 : IdealOp.run F o ops1 { gens := gens1 } = some id1)
+    (r2 : IdealOp.run F o ops2 { gens := gens2 } = some id2)
+    (f1 : id1.isReduced = 1) (f2 : id2.isReduced = 1) :
+    (∀ g ∈ id1.gens, ∃ g' ∈ id2.gens, toMv L g = toMv L g' ∧ equal F g g' = true) ∧
+    (∀ g ∈ id2.gens, ∃ g' ∈ id1.gens, toMv L g = toMv L g' ∧ equal F g g' = true) ∧
+    (toMv L) '' {g | g ∈ id1.gens} = (toMv L) '' {g | g ∈ id2.gens} ∧
+    (id1.gens.map (toMv L)).Perm (id2.gens.map (toMv L)) ∧ id1.gens.length = id2.gens.length := by
+  have S1 := (SemRed.fresh L o h1).run hadm ops1 s1 r1
+  have S2 := (SemRed.fresh L o h2).run hadm ops2 s2 r2
+  have m1 := S1.flags.red_imp f1
+  have m2 := S2.flags.red_imp f2
+  have G1 := (flag_semantics L hadm h1 ops1 s1 r1).2 (S1.flags.min_imp m1)
+  have G2 := (flag_semantics L hadm h2 ops2 s2 r2).2 (S2.flags.min_imp m2)
+  rw [hspan] at G1
+  obtain ⟨a, b, c⟩ := reduced_unique hadm G1 G2 S1.sm.good S2.sm.good (S1.red f1) (S2.red f2)
+    (S1.mon m1) (S2.mon m2)
+  obtain ⟨d, e⟩ := reduced_unique_perm hadm G1 G2 S1.sm.good S2.sm.good (S1.red f1) (S2.red f2)
+    (S1.mon m1) (S2.mon m2)
+  exact ⟨a, b, c, d, e⟩
+
+end HistoryReduced
+
 /-! ### a remark on the literal `minimize_span_full` -/
 
 /-- for `DegRevLex` over GF(3) the literal statement `minimize_span_full` is VACUOUSLY true: its
@@ -572,6 +814,107 @@ example :
     exact ⟨⟨trivial, by decide, by decide +kernel⟩, fun _ _ => trivial⟩
 
 end NonVacuity
+
+section NonVacuity2
+open C11
+
+theorem safeRun_k12 : SafeRun (C05.fieldOps (ZMod 3)) lexO [.groebnerBasis, .reduceBasis]
+    { gens := [k1, k2] } := by
+  let F := C05.fieldOps (ZMod 3)
+  have hb : buchberger F lexO groebnerFuel [k1, k2] = some [k1, k2, k3] := by decide +kernel
+  have hgb : Ideal.groebnerBasis F lexO { gens := [k1, k2] } = some ⟨[k1, k2, k3], 1, 0, 0⟩ := by
+    unfold Ideal.groebnerBasis
+    rw [if_neg (by decide), hb]; rfl
+  refine ⟨?_, ?_⟩
+  · intro _ G hG gb hp1 hp2
+    rw [hb] at hG
+    cases hG
+    have e := List.prefix_iff_eq_take.1 hp2
+    have l1 := hp1.length_le
+    have l2 := hp2.length_le
+    simp only [List.length_cons, List.length_nil] at l1 l2
+    apply roundSafe_of_test
+    have : gb.length = 2 ∨ gb.length = 3 := by omega
+    rcases this with h | h
+    · rw [e, h]; decide +kernel
+    · rw [e, h]; decide +kernel
+  · intro id' h
+    have h' : Ideal.groebnerBasis F lexO { gens := [k1, k2] } = some id' := h
+    rw [hgb] at h'
+    cases h'
+    refine ⟨⟨fun h => absurd rfl h, ?_⟩, fun _ _ => trivial⟩
+    intro id1 b hq
+    rw [Effects.isGroebnerQ_of_one F lexO rfl] at hq
+    cases hq
+    have hm : minimized F lexO [k1, k2, k3] = [k2, k3] := by decide +kernel
+    rw [if_neg (show ¬ (0 : Int) = 1 by decide), hm]
+    refine ⟨⟨trivial, by decide, by decide +kernel⟩, fun r hr => ?_⟩
+    have hr' : remByOthers F lexO [k2, k3] 0 = some k2 := by decide +kernel
+    rw [hr'] at hr
+    cases hr
+    exact ⟨⟨trivial, by decide, by decide +kernel⟩, fun _ _ => trivial⟩
+
+theorem safeRun_k23 : SafeRun (C05.fieldOps (ZMod 3)) lexO [.reduceBasis]
+    { gens := [k2, k3] } := by
+  let F := C05.fieldOps (ZMod 3)
+  refine ⟨⟨fun _ _ => roundSafe_of_test (by decide +kernel), ?_⟩, fun _ _ => trivial⟩
+  intro id1 b hq
+  rw [isGroebnerQ_undecided (by decide) (by decide)] at hq
+  have hd : decideGroebner F lexO [k2, k3] = some true := by decide +kernel
+  rw [show ({ gens := [k2, k3] } : BPoly.Ideal (ZMod 3)).gens = [k2, k3] from rfl, hd] at hq
+  simp only [Option.map_some, Option.some.injEq, Prod.mk.injEq] at hq
+  obtain ⟨rfl, rfl⟩ := hq
+  have hm : minimized F lexO [k2, k3] = [k2, k3] := by decide +kernel
+  rw [if_neg (show ¬ (0 : Int) = 1 by decide), hm]
+  refine ⟨⟨trivial, by decide, by decide +kernel⟩, fun r hr => ?_⟩
+  have hr' : remByOthers F lexO [k2, k3] 0 = some k2 := by decide +kernel
+  rw [hr'] at hr
+  cases hr
+  exact ⟨⟨trivial, by decide, by decide +kernel⟩, fun _ _ => trivial⟩
+
+/-- the hypotheses of `flags_sound_reduced` and `reduced_canonical` are jointly satisfiable:
+    `NewIdeal(XY+2, Y²+2)`, `GroebnerBasis()`, `ReduceBasis()` and `NewIdeal(Y²+2, X+2Y)`,
+    `ReduceBasis()` over GF(3), Lex, generate the same ideal and both end reduced-flagged — with
+    the generators `[Y²+2, X+2Y]`, as `reduced_canonical` says they must -/
+example :
+    let F := C05.fieldOps (ZMod 3)
+    let L := C05.fieldLawful (ZMod 3)
+    (∀ g ∈ [k1, k2], WF L g ∧ g ≠ [] ∧ Bounded g ∧ ∀ d ∈ keys g, Exact lexO d) ∧
+    (∀ g ∈ [k2, k3], WF L g ∧ g ≠ [] ∧ Bounded g ∧ ∀ d ∈ keys g, Exact lexO d) ∧
+    Ideal.span ((toMv L) '' {g | g ∈ [k1, k2]}) = Ideal.span ((toMv L) '' {g | g ∈ [k2, k3]}) ∧
+    SafeRun F lexO [.groebnerBasis, .reduceBasis] { gens := [k1, k2] } ∧
+    SafeRun F lexO [.reduceBasis] { gens := [k2, k3] } ∧
+    ∃ id1 id2, IdealOp.run F lexO [.groebnerBasis, .reduceBasis] { gens := [k1, k2] } = some id1 ∧
+      IdealOp.run F lexO [.reduceBasis] { gens := [k2, k3] } = some id2 ∧
+      id1.isReduced = 1 ∧ id2.isReduced = 1 ∧ id1.gens = [k2, k3] ∧ id2.gens = [k2, k3] := by
+  intro F L
+  have g12 : ∀ g ∈ [k1, k2], WF L g ∧ g ≠ [] ∧ Bounded g ∧ ∀ d ∈ keys g, Exact lexO d :=
+    fun g hg => good_k g (by
+      simp only [List.mem_cons, List.not_mem_nil, or_false] at hg ⊢
+      rcases hg with h | h <;> simp [h])
+  have g23 : ∀ g ∈ [k2, k3], WF L g ∧ g ≠ [] ∧ Bounded g ∧ ∀ d ∈ keys g, Exact lexO d :=
+    fun g hg => good_k g (by
+      simp only [List.mem_cons, List.not_mem_nil, or_false] at hg ⊢
+      rcases hg with h | h <;> simp [h])
+  have e1 : (IdealOp.run F lexO [.groebnerBasis, .reduceBasis] { gens := [k1, k2] }).map
+      (fun i => (i.gens, i.isReduced)) = some ([k2, k3], 1) := by decide +kernel
+  have e2 : (IdealOp.run F lexO [.reduceBasis] { gens := [k2, k3] }).map
+      (fun i => (i.gens, i.isReduced)) = some ([k2, k3], 1) := by decide +kernel
+  cases hr1 : IdealOp.run F lexO [.groebnerBasis, .reduceBasis] { gens := [k1, k2] } with
+  | none => rw [hr1] at e1; cases e1
+  | some id1 =>
+    cases hr2 : IdealOp.run F lexO [.reduceBasis] { gens := [k2, k3] } with
+    | none => rw [hr2] at e2; cases e2
+    | some id2 =>
+      rw [hr1] at e1
+      rw [hr2] at e2
+      simp only [Option.map_some, Option.some.injEq, Prod.mk.injEq] at e1 e2
+      refine ⟨g12, g23, ?_, safeRun_k12, safeRun_k23, id1, id2, rfl, rfl, e1.2, e2.2, e1.1, e2.1⟩
+      have := (history_span L (o := lexO) trivial g12 _ safeRun_k12 hr1).1
+      rw [e1.1] at this
+      exact this.symm
+
+end NonVacuity2
 
 end C12
 end Algobra
